@@ -565,6 +565,21 @@ impl DocumentInline {
 
     pub fn key_range(&self) -> Option<InlineRange> {
         match self {
+            // `[[key]]` and `[[key|text]]`: the key follows the opening brackets
+            DocumentInline::Link(link) if link.link_type != LinkType::Regular => {
+                let key_start = link.inline_range.start.character + 2;
+
+                Some(InlineRange {
+                    start: Position {
+                        line: link.inline_range.start.line,
+                        character: key_start,
+                    },
+                    end: Position {
+                        line: link.inline_range.start.line,
+                        character: key_start + link.target.url.len(),
+                    },
+                })
+            }
             DocumentInline::Link(link) => {
                 Some(InlineRange {
                     start: Position {
